@@ -294,11 +294,13 @@ def run(ctx: Ctx):
         if not saw_store:
             okr, why = False, "no path stores a derivative into the result array"
     ctx.check(okr, "R01.f", cg.key("define-then-store"), "x.symbol = x.expr is printed before values[k] = x.symbol", f"CodeGenerator.rhs: {why}", cg.where())
-    T = tm.TemplateModel(sm)
-    sk = T.skeleton("templates/python.py", "method")
-    order = ["{indent_states}", "{indent_parameters}", "{indent_missing_variables}", "{shape_info}", "{return_name} = {values_type}", "{indent_values}", "{indent_return}"]
-    pos = [sk.raw.find(o) for o in order]
-    ctx.check(all(p >= 0 for p in pos) and pos == sorted(pos), "R01.f", sk.func.key("statement-order"), "states, parameters, missing, allocation, body, return", f"python method template: statement order is {pos}", sk.func.where())
+    from sa import av as _av
+
+    sk = util.skeleton(ctx, "R01.f", "templates/python.py", "method", {"nan_to_num": _av.C(False)})
+    if sk is not None:
+        order = ["{states}", "{parameters}", "{missing_variables}", "{shape_info}", "{return_name} = {values_type}", "{values}", "return {return_name}"]
+        pos = [sk.raw.find(o) for o in order]
+        ctx.check(all(p >= 0 for p in pos) and pos == sorted(pos), "R01.f", sk.func.key("statement-order"), "states, parameters, missing, allocation, body, return", f"python method template: statement order is {pos}", sk.func.where())
     tc = util.template_method_call(cg)
     okw = tc is not None and (const_str(call_kw(tc, "name")) == "rhs") and call_kw(tc, "values") is not None and acc_list is not None and util.depends_on(cg.node, call_kw(tc, "values"), acc_list)
     okw = okw and call_kw(tc, "states") is not None and call_kw(tc, "parameters") is not None and util.ctext(cg, call_kw(tc, "states")) != util.ctext(cg, call_kw(tc, "parameters"))
